@@ -230,6 +230,27 @@ def grad_constraint(p, res):
             except Exception as e:  # noqa: BLE001
                 res.viol(con_name, cfg, "raises", f"{type(e).__name__}: {str(e)[:200]}")
                 break
+    # a batch with one SILENT item behind a shared, bias-free linear encoder: the loss is a smooth function of the shared weight (the silent item
+    # stays silent under every perturbation of the weight), so autograd must give the finite-difference gradient of the weight - one silent
+    # item must not poison the gradient that all items share
+    if con_name in ("total", "average", "per-antenna"):
+        shape = (3, 6) if con_name != "per-antenna" else (3, 2, 3)
+        for silent in (0, 1, 2):
+            cfg = f"{'complex128' if cplx else 'float64'},shape={'x'.join(map(str, shape))},silent-item={silent},shared-weight"
+            inp = inputs((3, 6), 1)
+            inp[silent] = 0.0
+            inp_i = inputs((3, 6), 4, 0.7)
+            inp_i[silent] = 0.0
+            W = inputs((6, 6), 2, 0.6) + torch.eye(6, dtype=torch.float64)
+
+            def fnw(ps):
+                z = (torch.complex(inp, inp_i) @ torch.complex(ps[0], torch.zeros_like(ps[0]))) if cplx else inp @ ps[0]
+                return con(z.reshape(shape))
+            try:
+                compare(fnw, [W], res, con_name, cfg, hrel=1e-5)
+            except Exception as e:  # noqa: BLE001
+                res.viol(con_name, cfg, "raises", f"{type(e).__name__}: {str(e)[:200]}")
+                break
     res.sample({"constraint": con_name, "complex": cplx})
 
 
